@@ -47,6 +47,16 @@ func (data MoveStakeData) basicCheck(tx *Transaction, context *state.CheckState)
 		}
 	}
 
+	// a stake can only be moved towards an existing candidate: a frozen fund
+	// without a target is paid out to the owner's balance after the move period
+	if !context.Candidates().Exists(data.ToPubKey) {
+		return &Response{
+			Code: code.CandidateNotFound,
+			Log:  "Candidate \"ToPubKey\" with such public key not found",
+			Info: EncodeError(code.NewCandidateNotFound(data.ToPubKey.String())),
+		}
+	}
+
 	sender, _ := tx.Sender()
 
 	var wlStake = new(big.Int)
